@@ -119,7 +119,7 @@ func mutateTranscript(r Rng, in []byte) []byte {
 
 func runC03(ctx *Ctx) error {
 	r, res := ctx.Rng, ctx.Res
-	res.Rule = "inputs: (a) transcripts recorded from pairs of real sessions (both roles, with and without outbound messages), mutated at every layer: truncation, deletion, insertion (NUL, control bytes, short lines such as 'F>', ';PQ', 'FS A5000'), substitution, numeric boundary values in any decimal field, line replacement, duplication, bit flips; the remote's answer lines replaced by offset requests (!n, An) around the compressed and the uncompressed size of the message asked for; (b) scripted masters delivering payloads whose compressed bytes or decompressed message are damaged (garbage, short LZHUF header, CRC flip, negative/huge Body and File sizes, File headers without a name or without a size, truncated sections; valid payloads behind proposal lines that declare a wrong uncompressed size, up to 2^63-1; blocks of 6..60 proposals with a correct checksum); (c) arbitrary bytes. Each is fed to a real Session.Exchange (then EOF). Oracle: returns nil/ErrConnLost/error within the watchdog, no panic, connection closed, allocation bounded by 32 MiB + 8 KiB per input byte. Correspondence: wire bytes, callbacks, stats and result class vs the model side. Non-trivial: mutated or damaged input; distinct by (config, input)."
+	res.Rule = "inputs: (a) transcripts recorded from pairs of real sessions (both roles, with and without outbound messages), mutated at every layer: truncation, deletion, insertion (NUL, control bytes, short lines such as 'F>', ';PQ', 'FS A5000'), substitution, numeric boundary values in any decimal field, line replacement, duplication, bit flips; the remote's answer lines replaced by offset requests (!n, An) around the compressed and the uncompressed size of the message asked for; (b) scripted masters delivering payloads whose compressed bytes or decompressed message are damaged (garbage, short LZHUF header, CRC flip, negative/huge Body and File sizes, File headers without a name or without a size, truncated sections; valid payloads behind proposal lines that declare a wrong uncompressed size, up to 2^63-1; blocks of 6..60 proposals with a correct checksum; secure-login challenges against slaves with and without a password callback and auxiliary addresses); (c) arbitrary bytes. Each is fed to a real Session.Exchange (then EOF). Oracle: returns nil/ErrConnLost/error within the watchdog, no panic, connection closed, allocation bounded by 32 MiB + 8 KiB per input byte. Correspondence: wire bytes, callbacks, stats and result class vs the model side. Non-trivial: mutated or damaged input; distinct by (config, input)."
 	type tc struct {
 		c  sideCfg
 		in []byte
@@ -271,6 +271,17 @@ func runC03(ctx *Ctx) error {
 		nh := slave
 		nh.Handler = false
 		tcs = append(tcs, tc{nh, scriptMaster(ms, 1+r.Intn(256)), "oversized-block"})
+	}
+	// a secure-login challenge from the master against slaves with and without a password callback,
+	// with and without auxiliary addresses (the handshake asks the callback once per address)
+	for _, aux := range [][]string{nil, {"LA9X"}, {"LA9X", "someone@example.org"}} {
+		for _, pw := range []string{"", "secret"} {
+			for _, ch := range []string{"23753528", "", " 1", "x"} {
+				c := slave
+				c.Aux, c.Password = aux, pw
+				tcs = append(tcs, tc{c, []byte("[WL2K-5.0-B2FWIHJM$]\r;PQ: " + ch + "\rCMS>\rFF\r"), "secure-login"})
+			}
+		}
 	}
 	// (c) arbitrary bytes
 	for i := 0; i < ctx.N(300, 3000); i++ {
